@@ -80,7 +80,7 @@ func (nb *nativeBuild) build() error {
 		for _, n := range nb.names {
 			fmt.Fprintf(&sb, "\t%q: %s,\n", n, n)
 		}
-		sb.WriteString("}\n\nfunc TestReplay(t *testing.T) {\n\th := verifrt.Load(os.Getenv(\"VERIF_REPLAY\"))\n\tf := registry[h]\n\tif f == nil {\n\t\tfmt.Println(\"VERIF-INVALID no such harness\", h)\n\t\treturn\n\t}\n\tfunc() {\n\t\tdefer func() {\n\t\t\tif r := recover(); r != nil {\n\t\t\t\tfmt.Printf(\"VERIF-PANIC %v\\n%s\\n\", r, debug.Stack())\n\t\t\t}\n\t\t}()\n\t\tf()\n\t}()\n\tfor _, s := range verifrt.Failed {\n\t\tfmt.Printf(\"VERIF-ASSERT-FAILED site=%s\\n\", s)\n\t}\n\tfor _, o := range verifrt.Obs {\n\t\tfmt.Printf(\"VERIF-OBS %s\\n\", o)\n\t}\n\tif verifrt.Invalid != \"\" {\n\t\tfmt.Printf(\"VERIF-INVALID %s\\n\", verifrt.Invalid)\n\t}\n\tfmt.Println(\"VERIF-DONE\")\n}\n")
+		sb.WriteString("}\n\nfunc TestReplay(t *testing.T) {\n\th := verifrt.Load(os.Getenv(\"VERIF_REPLAY\"))\n\tf := registry[h]\n\tif f == nil {\n\t\tfmt.Println(\"VERIF-INVALID no such harness\", h)\n\t\treturn\n\t}\n\tfunc() {\n\t\tdefer func() {\n\t\t\tif r := recover(); r != nil {\n\t\t\t\tfmt.Printf(\"VERIF-PANIC %v\\n%s\\n\", r, debug.Stack())\n\t\t\t}\n\t\t}()\n\t\tf()\n\t}()\n\tfmt.Println()\n\tfor _, s := range verifrt.Failed {\n\t\tfmt.Printf(\"VERIF-ASSERT-FAILED site=%s\\n\", s)\n\t}\n\tfor _, o := range verifrt.Obs {\n\t\tfmt.Printf(\"VERIF-OBS %s\\n\", o)\n\t}\n\tif verifrt.Invalid != \"\" {\n\t\tfmt.Printf(\"VERIF-INVALID %s\\n\", verifrt.Invalid)\n\t}\n\tfmt.Println(\"VERIF-DONE\")\n}\n")
 		drv := filepath.Join(dir, "zz_replay_test.go")
 		os.WriteFile(drv, []byte(sb.String()), 0o644)
 		ov := nb.overlayFiles()
